@@ -1,6 +1,6 @@
-"""Guard-skeleton inventory of the analyzer's diagnostics: for every
-`Diagnostic::error().with_code(..)` site, the chain of enclosing conditions (patterns and
-boolean expressions with local names erased, comparisons canonicalised)."""
+"""Path-condition inventory of the analyzer's diagnostics: for every `Diagnostic::error().with_code(..)` site, the
+set of literals of the condition under which it is reached (patterns and boolean expressions with local names erased,
+in the normal form of synq.guard_literals)."""
 from . import synq, stages
 
 AN = "pdl-compiler/src/analyzer.rs"
@@ -15,19 +15,21 @@ def inventory(tree=None):
             continue
         if name.startswith("<"):
             continue      # trait-qualified duplicates
-        for node, ctx in synq.guard_chains(f, lambda x: x.get("k") == "MethodCall" and x["method"] == "with_code"):
+        for node, lits in synq.guard_literals(f, lambda x: x.get("k") == "MethodCall" and x["method"] == "with_code"):
             code = synq.expr_skel(node["args"][0])
-            out.append({"fn": name, "code": code, "chain": ctx})
+            out.append({"fn": name, "code": code, "chain": sorted(lits)})
     return out
 
 
 def canonical(entry):
-    """equivalences for the known spellings of 'v does not fit w bits'"""
+    """the path condition of a diagnostic as a sorted list of literals (see synq.guard_literals): independent of how
+    the condition is spelled (match / if let / matches!, nested ifs / &&, named booleans, operand order) and of the
+    function it lives in; plus the known equivalent spellings of 'v does not fit w bits'"""
     c = []
     for x in entry["chain"]:
         x = x.replace("(scalar_max(_) < _)", "(_ < bit_width(_))")
         c.append(x)
-    return {"fn": entry["fn"], "code": entry["code"], "chain": c}
+    return {"fn": entry["fn"], "code": entry["code"], "chain": sorted(c)}
 
 
 if __name__ == "__main__":
